@@ -19,6 +19,16 @@ type c15Unmapped struct{ x int }
 
 type c15Struct struct{ M string }
 
+// c15NilErr: a typed nil pointer inside an error interface is a non-nil panic value whose Error
+// method itself panics when called directly.
+type c15NilErr struct{ msg string }
+
+func (e *c15NilErr) Error() string { return e.msg }
+
+type c15BadStringer struct{}
+
+func (c15BadStringer) String() string { panic("String() of the panic value panics") }
+
 type c15Config struct {
 	N       int    `json:"stack_size"`
 	R       int    `json:"recovery_position"`
@@ -47,6 +57,8 @@ func (c c15Config) marker() string {
 		return "MARK-struct"
 	case "abort":
 		return "abort Handler"
+	case "nil-error-pointer", "panicking-stringer":
+		return "PANIC: "
 	}
 	return "?"
 }
@@ -64,6 +76,11 @@ func (c c15Config) doPanic() {
 		panic(c15Struct{"MARK-struct"})
 	case "abort":
 		panic(http.ErrAbortHandler)
+	case "nil-error-pointer":
+		var e *c15NilErr
+		panic(error(e))
+	case "panicking-stringer":
+		panic(c15BadStringer{})
 	}
 }
 
@@ -269,7 +286,7 @@ func c15Configs(thorough bool) []c15Config {
 	var out []c15Config
 	maxN := 4
 	phases := []string{"before-write", "after-status", "after-body", "after-next", "unresolved-dependency"}
-	values := []string{"string", "error", "runtime", "struct", "abort"}
+	values := []string{"string", "error", "runtime", "struct", "abort", "nil-error-pointer", "panicking-stringer"}
 	styles := []string{"use", "route", "group"}
 	for n := 2; n <= maxN; n++ {
 		for r := 0; r < n-1; r++ {
@@ -305,7 +322,7 @@ func c15Run(r *core.Run) {
 	if !r.Thorough() {
 		seqs = []string{"P", "PN", "PPN", "NPN", "PNP"}
 	}
-	r.Rule = "engine E: stacks of 2..4 handlers with Recovery at every position, logging middleware before it, pass-through handlers (with and without their own Next()) between it and the panicking handler at every later position; panic phase {before any write, after a status, after body bytes, after Next() returned, unresolved dependency} x value {string, error, runtime error, struct, http.ErrAbortHandler} x registration style {application middleware, route handlers, middleware+group} x environment {development, production, test} x request sequences over {panicking, normal}; oracle: nothing escapes, status 500 iff nothing had been sent, detail in the body iff development, outer middleware completes, normal requests equal a fresh instance; non-trivial = sequence with >=2 requests or a panic after something was written"
+	r.Rule = "engine E: stacks of 2..4 handlers with Recovery at every position, logging middleware before it, pass-through handlers (with and without their own Next()) between it and the panicking handler at every later position; panic phase {before any write, after a status, after body bytes, after Next() returned, unresolved dependency} x value {string, error, runtime error, struct, http.ErrAbortHandler, typed-nil error pointer, value whose String() panics} x registration style {application middleware, route handlers, middleware+group} x environment {development, production, test} x request sequences over {panicking, normal}; oracle: nothing escapes, status 500 iff nothing had been sent, detail in the body iff development, outer middleware completes, normal requests equal a fresh instance; non-trivial = sequence with >=2 requests or a panic after something was written"
 	r.Bounds["configs"] = len(cfgs)
 	r.Bounds["sequences"] = seqs
 	r.Assumptions = []string{"panic(nil) is outside the statement ('any non-nil value')", "environments are process-global: the three environments run as sequential phases"}
